@@ -20,7 +20,7 @@ Packet = conn_mod.Packet
 
 SERVER_ADDR = ("10.0.1.1", 1474)
 ATTACKER_MARK = b"\xEEVIL\xEE"
-SERVER_OPS = {"ssend", "sdisconnect"}
+SERVER_OPS = {"ssend", "sdisconnect", "sblock"}
 
 DEFAULT_CFG = {
     "seed": 0,
@@ -484,6 +484,14 @@ class ClientNode:
         else:
             conn._send_type(PacketType.CLIENT_HELLO, msg.dumpb(), RetryMode.NONE, None)
 
+    def op_csockerr(self, op):
+        """The kernel refuses the client's next datagram (ENOBUFS, EPERM from a firewall rule ...): sendto raises once.
+        UdpClient.update() passes that on to the application, which carries on calling update()."""
+        if self.sock is not None:
+            import errno
+            self.sock.fail_next_send = op.get("errno", errno.ENOBUFS)
+            self.w.probe("client_sendto_failure_armed")
+
     def op_crash(self, op):
         self.w.app_event(self.name, self.inc, "crash")
         self.crash()
@@ -699,6 +707,11 @@ class World:
             if kind == "ssend":
                 if target is not None:
                     self.app_send("S", target, op)
+            elif kind == "sblock":
+                # the operator puts the address of a (connected) client on the block list while the server runs
+                ip = client_addr(op["c"])[0]
+                self.probe("block_list_changed_at_run_time")
+                self.ctxt.setBlockList(set(self.ctxt.blocklist) | {ip})
             elif kind == "sdisconnect":
                 if target is not None:
                     self.app_event("S", self.handler.cid(target), "server_disconnect_call")
